@@ -159,9 +159,17 @@ def build_task(mod, ts, tasks, outs, created, extra):
     created.append(t)
     if pre:
         t.add_pretasks(*pre)
-    for e in explicit:
-        t.add_dependencies(e.__xpm__.dependency())
-    return t, init
+    launcher = None
+    if explicit and ts.get("via") == "listener":
+        from experimaestro.connectors.local import LocalConnector
+        from experimaestro.launchers.direct import DirectLauncher
+        launcher = DirectLauncher(LocalConnector.instance())
+        deps = [e.__xpm__.dependency() for e in explicit]
+        launcher.addListener(lambda job, deps=deps: [job.dependencies.add(d) for d in deps])
+    else:
+        for e in explicit:
+            t.add_dependencies(e.__xpm__.dependency())
+    return t, init, launcher
 
 
 def main():
@@ -185,7 +193,7 @@ def main():
                     snapshots = []
                     producer = {}   # id(output object) -> index of the task whose submit returned it last
                     for ts in case["tasks"]:
-                        t, init = build_task(mod, ts, tasks, outs, created, extra)
+                        t, init, launcher = build_task(mod, ts, tasks, outs, created, extra)
                         producer_before = dict(producer)
                         # the graph as `submit` sees it (a pass-through task re-marks an embedded output afterwards)
                         snap_index = {id(o): i for i, o in enumerate(created)}
@@ -201,7 +209,12 @@ def main():
                             rec["foreign_objects"] = True
                         import io, contextlib
                         with contextlib.redirect_stderr(io.StringIO()):
-                            o = t.submit(init_tasks=init) if init else t.submit()
+                            kws = {}
+                            if init:
+                                kws["init_tasks"] = init
+                            if launcher is not None:
+                                kws["launcher"] = launcher
+                            o = t.submit(**kws)
                         if o is not t and not any(o is c for c in created):
                             created.append(o)
                         if o is not t:
